@@ -116,9 +116,9 @@ func (vm *VM) GetLocals(locals []Object) []Object {
 // goroutine.
 func (vm *VM) Abort() {
 	verifSync(vm, "abort.begin")
-	vm.pool.abort()
-	verifSync(vm, "abort.mid")
 	vm.abort.Store(1)
+	verifSync(vm, "abort.mid")
+	vm.pool.abort()
 	verifSync(vm, "abort.end")
 }
 
@@ -142,6 +142,10 @@ func (vm *VM) Run(globals Object, args ...Object) (Object, error) {
 	vm.err = nil
 	vm.abort.Store(0)
 	verifSync(vm, "run.reset")
+	if root := vm.pool.root; root != nil && root != vm && root.Aborted() {
+		// child VM of an aborted VM, do not lose the abort that raced with the reset above
+		vm.abort.Store(1)
+	}
 	verifSync(vm, "run.rechecked")
 	vm.initGlobals(globals)
 	vm.initLocals(args)
